@@ -12,7 +12,10 @@ CHECKS = {
    cat="proof", technique="Lean 4 theorem (induction over swap loop, any pivot oracle) + model/implementation differential + translator regenerating SSPOR.fit's post-optimizer statements and the reads of the ranking from the AST (Python slice arithmetic explicit), proved equal to tailShuffle / selectLead on every run",
    text="Lean theorems pivLoop_perm / tailShuffle_perm / selected_spec / ranking_pipeline_spec prove for every pivot oracle, "
         "size, shuffle and sensor count that the ranking is a permutation and the selection a duplicate-free prefix of the "
-        "reported length; the bookkeeping model is replayed against the real CCQR/GQR/SSPOR runs on every invocation.",
+        "reported length; run_rankOK (Props/C01Life.lean, induction over the operations of the SSPOR state machine) lifts this to every history of accepted calls "
+        "– fits on data of any widths, setter calls, mode updates, the basis object fitted behind the model's back, pickled copies: the ranking is a permutation of the "
+        "sensor rows of the model's own basis matrix (rejected_fit_breaks_rankOK shows why rejected fits are excluded: finding F11); "
+        "the bookkeeping model and the state machine are replayed against the real CCQR/GQR/SSPOR runs on every invocation.",
    ref="DESIGN.md §5 C01",
    note="Generated/Ranking.lean (harness/translate_ranking.py): pipe_ssporFit – the statements after the optimizer call are tailShuffle σ m for every ranking, mode count, sensor count and permutation oracle (seed must reach np.random.default_rng unmodified); selection_<method>_k – every slice of ranked_sensors_ in predict / get_selected_sensors is selectLead n_sensors. LAPACK geqp3's pivot vector (QR) is a parameter, checked directly on each sample; numpy's Generator.permutation is the σ parameter."),
  "C03": dict(
